@@ -1,0 +1,25 @@
+//go:build verif
+
+// Contracts for package jobs, checked by /verif (govc). Ghost functions and
+// comments only.
+package jobs
+
+func forall(lo, hi int, f func(int) bool) bool {
+	for i := lo; i < hi; i++ {
+		if !f(i) {
+			return false
+		}
+	}
+	return true
+}
+
+// start (re)deploys the assembly from the latest completed checkpoint. A job
+// checkpoint that was in flight when the previous assembly failed can never
+// complete (its acknowledgements are gone): it must not survive, or every later
+// CreateCheckpoint answers "in progress".
+//@ func Job.start
+//@   property C15
+//@   nosafety
+//@   requires j.snapshotStore != nil && j.assembly != nil && j.config != nil
+//@   atcall Deploy: j.snapshotStore.state.pendingSnapshot == nil
+//@   order Deploy after CurrentCheckpoint
